@@ -17,15 +17,32 @@ THEOREMS = [
     "C15_message: parse_document s = PErr e at, no bare CR at / right before at -> e has a cause or a context (message non-empty); whole parser",
     "C15_message_refuted, C15_message_refuted_array: witnesses CR and `a = [CR]` have an empty message (known finding C15-empty-message-bare-cr)",
     "C15_located: all of the above composed for one rejected document",
+    "C15_message_trailing: p (new_input s) = Ok a i, rest i <> [] -> parse_all (terminated_eoi p) s = Failed {cause none, context} (pos i) "
+    "and parse_all p s = Failed err0 (pos i): trailing input after a complete stand-alone value / key is rejected WITH the context "
+    "`end of input` where Parser::parse alone gave an empty message",
+    "C15_eoi_same_accepted, C15_eoi_same_offset: terminated(P, end_of_input).parse accepts exactly what P.parse accepts, with the same result; "
+    "a rejection keeps its offset and cause and never loses a context",
+    "C15_message_value: parse_value_raw s = PErr e at, no bare CR at / right before at -> e has a cause or a context (Value::from_str)",
+    "C15_message_value_refuted: the value `[CR]` has an empty message (same known finding C15-empty-message-bare-cr)",
+    "C15_message_key_path: parse_key_path s = PErr e at -> e has a cause or a context (Key::parse; no side condition)",
+    "C15_message_key: key_head_b s = true (s starts with a quotation mark, an apostrophe or an unquoted-key character), parse_key s = PErr e at "
+    "-> e has a cause or a context (Key::from_str; no bare-CR premise)",
+    "C15_message_key_empty, C15_message_key_refuted, C15_message_key_refuted_bang: key_head_b s = false -> parse_key s = PErr err0 (Some 0): "
+    "the empty input and every input starting with another byte (`!`) are rejected with an EMPTY message "
+    "(finding C15-empty-message-key-start; the side condition is exact)",
 ]
 RULE = ("valid generated documents (multi-byte characters in keys, strings, comments) x truncation at every character boundary, "
         "single-byte insertion/substitution/deletion at every position from a small byte set, gen_toml.mutate, multi-byte characters "
         "inserted right before and at the implementation's error position, with and without final newline, CR-related inputs, "
-        "value/key fragments through Value::from_str / Key::from_str / Key::parse; (valid document, mismatching Rust type) pairs "
+        "value/key fragments through Value::from_str / Key::from_str / Key::parse (valid ones, truncations, single-byte insertions / "
+        "substitutions, fixed families: trailing input after a complete value / key, every first byte, CR inputs); a NON-EMPTY message is "
+        "demanded of every rejection on all four entry points; (valid document, mismatching Rust type) pairs "
         "through five deserialization routes; non-trivial = rejected input whose error offset is > 0 (deerr: an error was returned)")
 ASSUMPTIONS = [
     "DocumentMut::from_str / Value::from_str / Key::from_str / Key::parse are the observation points of parser errors (TomlError::span, message, Display)",
     "line/column are read back from the first line of Display; a panic while rendering is caught by catch_unwind",
+    "the stand-alone entry points run winnow::combinator::terminated(P, end_of_input).parse (parser/mod.rs); winnow's `eof`, `context` and "
+    "`Parser::parse` are the oracle of Base/Winnow.v (eof fails with a bare backtrack error, context marks Backtrack and Cut errors alike)",
     "the serde half (deerr) is judged on the implementation only: expected spans are looked up in toml_edit::ImDocument by key path",
 ]
 
@@ -105,6 +122,23 @@ def empty_class(text, f):
     return None
 
 
+KEY_START = frozenset(b"\"'-_" + bytes(range(0x30, 0x3A)) + bytes(range(0x41, 0x5B)) + bytes(range(0x61, 0x7B)))
+
+
+def empty_key_start_class(case, text, f):
+    """decidable classifier of the finding C15-empty-message-key-start (= key_head_b s = false in
+    coq/Proofs/EoiMsg.v, theorems C15_message_key / C15_message_key_empty): Key::from_str on an input that
+    is empty or starts with a byte no simple key can start with (not a quotation mark, an apostrophe or an
+    unquoted-key character) is rejected at offset 0 with an empty message: parser/key.rs `simple_key` has
+    no context of its own and neither `peek(any)` nor `take_while(1.., UNQUOTED_CHAR)` attaches one."""
+    if case.cmd != "kerr" or f.get("msg") != "empty" or f.get("span") in (None, "none"):
+        return None
+    a = int(f["span"].split("-")[0])
+    if a == 0 and (len(text) == 0 or text[0] not in KEY_START):
+        return "C15-empty-message-key-start"
+    return None
+
+
 def oracle(case, line):
     if case.cmd == "deerr":
         return oracle_deerr(case, line)
@@ -117,9 +151,9 @@ def oracle(case, line):
     bad = err_checks(text, f)
     if bad:
         return "; ".join(bad)
-    # the property quantifies over documents; the stand-alone entry points (Value::from_str,
-    # Key::from_str, Key::parse) are checked for span and rendering only
-    if case.cmd == "derr" and f.get("msg") != "nonempty":
+    # every rejection carries a message: documents and the stand-alone entry points (Value::from_str,
+    # Key::from_str, Key::parse) alike
+    if f.get("msg") != "nonempty":
         return "empty error message"
     return None
 
@@ -140,7 +174,9 @@ def known_class(case, line):
     f = fields(line)
     if err_checks(text, f):
         return None            # something else is wrong as well: never masked
-    return empty_class(text, f)
+    # Key::from_str has no bare-CR class of its own (C15_message_key has no such premise): a key that starts with a CR is
+    # the key-start finding
+    return empty_key_start_class(case, text, f) or empty_class(text, f)
 
 
 def nontrivial(case, line):
@@ -371,6 +407,24 @@ def gen_cases(rng, tier):
                 add("derr", key + tail, "mb-before")
     for cmd in ("verr", "kerr", "kperr"):
         add(cmd, b"", "empty")
+    # trailing input after a complete value / key (rejected by end_of_input), every first byte, CR inputs
+    for v in (b"1", b"true", b"'a'", b"\"a\"", b"[1]", b"{a=1}", b"1.5", b"1979-05-27", b"[1, [2]]", "'é'".encode()):
+        for tail in (b" 2", b" ", b"\n", b"\r", b"\r\n", b",", b"]", b"}", b"=", b"#", b" # c", b"\x01", "é".encode(), b"x", b"."):
+            add("verr", v + tail, "trailing")
+    for k in (b"a", b"a-b_1", b"'a b'", b"\"a\"", "\"é\"".encode(), b"1"):
+        for tail in (b" b", b" ", b".", b".b", b" .b", b"\n", b"\r", b"=", b"\x01", "é".encode(), b"'", b"\""):
+            add("kerr", k + tail, "trailing")
+            add("kperr", k + tail, "trailing")
+            add("kperr", k + b"." + k + tail, "trailing")
+            add("kperr", k + b" . " + k + tail, "trailing")
+    for b0 in range(0x80):
+        for cmd in ("verr", "kerr", "kperr"):
+            add(cmd, bytes([b0]), "first-byte")
+            add(cmd, bytes([b0]) + b"a", "first-byte")
+    for cmd in ("verr", "kerr", "kperr"):
+        for s in (b"[\r]", b"[\r\n]", b"[1,\r2]", b"[ # c\r]", b"\r", b"\r\n", b"'\r'", b"\"\r\"", b"a\r", b"a.\rb", b"{\r}",
+                  b"\"\"\"\r\"\"\"", b"'''\r'''", b"[\"\"\"\\\r\"\"\"]"):
+            add(cmd, s, "cr")
 
     # -- valid documents: truncation at every byte, edits at every position --------------------
     n_docs = 16 if quick else 450
